@@ -56,5 +56,26 @@ def inline_self_methods(prog, only=None, exclude=()):
     return cb
 
 
+def inline_helpers(prog, modules=None, exclude=(), classes=True):
+    """inline callback: expand every resolvable package callee defined in
+    one of `modules` (all when None) - methods called on self/cls and plain
+    functions - except the excluded quals and generators."""
+    def cb(call, frame):
+        g = prog.callee_of(frame, call)
+        if g is None or g.qual in exclude:
+            return None
+        if modules is not None and g.module.name not in modules:
+            return None
+        if g.cls is not None and not classes:
+            return None
+        if g.name == '__init__':
+            return None
+        if any(isinstance(x, (ast.Yield, ast.YieldFrom))
+               for x in ast.walk(g.node)):
+            return None
+        return g
+    return cb
+
+
 def text_conds(p):
     return p.cond_text()
